@@ -83,7 +83,7 @@ class Extractor:
                 pf = self.prog.promoted_fields(op) or []
                 return ("ref", ("variant", pv[0], pv[1], [("const", x) for x in pf]))
             if k["c"] == "fn":
-                return ("fn", k["callee"]["id"], k["callee"]["def"])
+                return ("fn", k["callee"]["id"], k["callee"]["def"], tuple(k["callee"].get("may_call") or ()))
             if k["c"] == "zst":
                 return ("const", 0)
             return ("opaque", "const " + str(k.get("s", k["c"])))
@@ -266,6 +266,18 @@ class Opaque:
         return hash(self.tag)
 
 
+def strip_generics(s):
+    out, depth = [], 0
+    for ch in s:
+        if ch == "<":
+            depth += 1
+        elif ch == ">":
+            depth -= 1
+        elif depth == 0:
+            out.append(ch)
+    return "".join(out).replace("::::", "::")
+
+
 class EnumVal:
     __slots__ = ("adt", "v", "f")
 
@@ -287,6 +299,17 @@ class EnumVal:
 
 
 class Evaluator:
+    def variant_ctor(self, fn_def):
+        """(adt short name, variant) when `fn_def` is the constructor function of a tuple variant (`QCLASS::CLASS` used as a fn)"""
+        parts = strip_generics(fn_def).split("::")
+        if len(parts) < 2:
+            return None
+        vn, an = parts[-1], parts[-2]
+        for name, a in self.prog.adts.items():
+            if name.split("::")[-1] == an and any(v["name"] == vn for v in a["variants"]):
+                return (an, vn)
+        return None
+
     def __init__(self, prog, bindings=None):
         self.prog = prog
         self.bind = bindings or {}       # opaque tag / field-path -> value
@@ -390,6 +413,8 @@ class Evaluator:
                 return v[t[2]]
             if isinstance(v, EnumVal) and isinstance(t[2], int) and t[2] < len(v.f):
                 return v.f[t[2]]
+            if isinstance(v, EnumVal) and isinstance(t[2], str) and t[2].isdigit() and int(t[2]) < len(v.f):
+                return v.f[int(t[2])]          # field of a tuple struct (`self.0`)
             if isinstance(v, tuple) and v and v[0] == "closure" and isinstance(t[2], int) and t[2] < len(v[2]):
                 return v[2][t[2]]
             if isinstance(v, tuple) and isinstance(t[2], int) and t[2] < len(v) and not (v and isinstance(v[0], str) and v[0] in ("closure", "fnitem", "slice")):
@@ -473,11 +498,18 @@ class Evaluator:
                     r = self.call(self.prog.bodies[f[1]], [f, v0.f[0] if v0.f else Opaque("unit")])
                     return EnumVal(v0.adt, v0.v, [r])
                 if isinstance(f, tuple) and f and f[0] == "fnitem":
+                    ctor = self.variant_ctor(f[2])
+                    if ctor is not None:
+                        return EnumVal(v0.adt, v0.v, [EnumVal(ctor[0], ctor[1], [v0.f[0]])])
                     hook2 = self.bind.get(("call", f[2]))
                     if hook2 is not None:
                         return EnumVal(v0.adt, v0.v, [hook2([v0.f[0]])])
                     if f[1] in self.prog.bodies:
                         return EnumVal(v0.adt, v0.v, [self.call(self.prog.bodies[f[1]], [v0.f[0]])])
+                    # a generic std function passed by name (`.map(Into::into)`): the one workspace impl it dispatches to
+                    mc = [x for x in (f[3] if len(f) > 3 else ()) if x in self.prog.bodies]
+                    if len(mc) == 1:
+                        return EnumVal(v0.adt, v0.v, [self.call(self.prog.bodies[mc[0]], [v0.f[0]])])
                 return EnumVal(v0.adt, v0.v, [Opaque("mapped")])
             if name.endswith("::trailing_zeros") and vals and isinstance(vals[0], int) and vals[0] > 0:
                 return (vals[0] & -vals[0]).bit_length() - 1
@@ -486,6 +518,8 @@ class Evaluator:
                     return Opaque("eq on opaque")
                 r = vals[0] == vals[1]
                 return int(r if not name.endswith("::ne") else not r)
+            if name in ("core::bool::<impl bool>::then_some", "std::bool::<impl bool>::then_some") and len(vals) == 2 and isinstance(vals[0], (int, bool)):
+                return EnumVal("Option", "Some", [vals[1]]) if vals[0] else EnumVal("Option", "None")
             if name == "std::ops::RangeInclusive::<Idx>::new" and len(vals) == 2:
                 return EnumVal("RangeInclusive", "RangeInclusive", [vals[0], vals[1]])
             m2 = re.match(r"^std::ops::(Range|RangeInclusive|RangeTo|RangeFrom|RangeToInclusive)::<Idx>::contains$", name)
@@ -519,5 +553,5 @@ class Evaluator:
                 return self.bind[t[1]]
             return Opaque(t[1])
         if k == "fn":
-            return ("fnitem", t[1], t[2])
+            return ("fnitem", t[1], t[2], t[3] if len(t) > 3 else ())
         return Opaque("term " + k)
